@@ -423,6 +423,17 @@ func Reach(fn *ssa.Function, from ssa.Instruction, cut CutFunc, stop func(ssa.In
 	return reached
 }
 
+// ReachAt is Reach starting AT instruction `at` (inclusive): at itself is
+// reached and subject to stop.
+func ReachAt(fn *ssa.Function, at ssa.Instruction, cut CutFunc, stop func(ssa.Instruction) bool) map[ssa.Instruction]bool {
+	if stop != nil && stop(at) {
+		return map[ssa.Instruction]bool{at: true}
+	}
+	m := Reach(fn, at, cut, stop)
+	m[at] = true
+	return m
+}
+
 // GuardPred classifies an If condition (already stripped of negations):
 // +1 if the guarded fact holds on the true edge, -1 if it holds on the false
 // edge, 0 if the condition is unrelated.
